@@ -314,7 +314,9 @@ def _judge(res: core.Res, s: str, fmt: str, ptypes: bool) -> None:
     # the same clause against an independent reader: plain docutils parsing the same text. Only structural messages are
     # taken (they do not depend on the roles and directives pydoctor adds or removes)
     if fmt == 'restructuredtext' and system.allobjects['fz.func'].docstring:
-        structural = _plain_docutils_problems(system.allobjects['fz.func'].docstring)
+        # (pydoctor accepts the Sphinx roles for code references by removing the role marker - ":py:class:`X`" is read as "`X`" -, which
+        # moves the boundaries of inline markup: the independent reader is given the text with the markers removed in the same way)
+        structural = _plain_docutils_problems(re.sub(r'(:py)?:(mod|func|data|const|class|meth|attr|exc|obj):', '', system.allobjects['fz.func'].docstring))
         if structural:
             res.c('independent_reader_problems_observed')
             if 'fz.func' not in system.parse_errors['docstring']:
